@@ -59,6 +59,7 @@ struct Sim {
     struct Atfork { void (*prepare)(); void (*parent)(); void (*child)(); };
     std::vector<Atfork> atfork;
     bool sigpipe_ignored = false;
+    std::map<std::string, std::map<int, int>> flocks;   // advisory whole-file locks: path -> (open file description -> 1 shared / 2 exclusive)
 };
 extern Sim G;
 
@@ -71,11 +72,13 @@ long k_read(int fd, void *buf, size_t n);
 long k_write(int fd, const void *buf, size_t n);
 long k_lseek(int fd, long off, int whence);
 int k_close(int fd);
+int k_flock(int fd, int op);
 int k_socket(int domain, int type, int proto);
 int k_connect(int fd, const void *addr, unsigned len);
 long k_send(int fd, const void *buf, size_t n, int flags);
 FILE *k_fopen(const char *path, const char *mode);
 FILE *k_fdopen(int fd, const char *mode);
+int k_fileno(FILE *f);                     // descriptor behind a simulated stream, -1 for any other stream
 void sim_abort(const char *cls, const std::string &detail) __attribute__((noreturn));
 Snap take_snapshot();
 void sut_write(void *dst, const void *src, size_t n);   // copy into memory owned by the library, visible to TSan as a write by this thread
@@ -88,6 +91,8 @@ int sched_mutex_lock(pthread_mutex_t *m);
 int sched_mutex_trylock(pthread_mutex_t *m);
 int sched_mutex_unlock(pthread_mutex_t *m);
 int sched_once(pthread_once_t *o, void (*fn)());
+void sched_block_on(const void *key, const std::string &what);   // park the calling thread until sched_wake_all(key); aborts the run when nobody can
+void sched_wake_all(const void *key);
 void run_batch(const Plan &plan, int opi, const Op &op, RunResult &r);
 void run_forkexec(const Plan &plan, int opi, const Op &op, RunResult &r);
 int sim_fork();                             // library-visible fork(): handlers + real fork
